@@ -91,8 +91,34 @@ def fan_out(src, fname):
     return m.group(2) == "snapshot_target_nodes" and m.group(3).strip() == "tags"
 
 
+def dead_kinds(path):
+    """What a call on a client whose response loop has failed can yield (a list: the first entry is what
+    a call made after the failure has been fully processed yields). Without a `failed` flag the request
+    is written to the socket `fail_all_pending` shut down: EPIPE. With a `failed` flag that `register`
+    tests before anything is written: the kind of `connection_failed_error`; a call that registered
+    just before the flag was set still reaches the write on the shut-down socket: EPIPE as well."""
+    src = test_mod_cut(strip(read(path)))
+    raw = test_mod_cut(read(path))
+    if not re.search(r"\bfailed\b", src):
+        if "fn fail_all_pending" not in src or not re.search(r"\.shutdown\(", fn_body(src, "fail_all_pending")):
+            raise ExtractError(f"{path}: fail_all_pending does not shut the socket down")
+        return ["BrokenPipe"]
+    reg = " ".join(fn_body(src, "register").split())
+    if not re.search(r"failed\.load\([^)]*\) ?\{ ?return Err\(connection_failed_error\(", reg):
+        raise ExtractError(f"{path}: `failed` flag is not tested in register")
+    fap = " ".join(fn_body(src, "fail_all_pending").split())
+    i, j = fap.find("failed.store(true"), fap.find(".drain()")
+    if i < 0 or j < 0 or i > j: raise ExtractError(f"{path}: failed.store(true) does not precede the drain")
+    m = re.search(r"fn connection_failed_error[^{]*\{(.*?)\n\}", raw, re.S)
+    km = re.search(r"ErrorKind::(\w+)", m.group(1)) if m else None
+    if not km or km.group(1) not in KINDS: raise ExtractError(f"{path}: kind of connection_failed_error")
+    return [km.group(1)] + (["BrokenPipe"] if km.group(1) != "BrokenPipe" else [])
+
+
 def extract():
     facts = {}
+    facts["deadKinds"] = dead_kinds("src/client.rs")
+    facts["asyncDeadKinds"] = dead_kinds("src/async_client.rs")
     for key, path in (("", "src/fleet.rs"), ("async", "src/async_fleet.rs")):
         raw = read(path)
         src = test_mod_cut(strip(raw))
@@ -117,7 +143,7 @@ def render(f):
     kinds = lambda l: "[" + ", ".join("." + KINDS[k] for k in l) + "]"
     lf = lambda d: f"⟨{b(d['inclusive'])}, {b(d['invalidateOnRetry'])}, {b(d['breakOnNonRetry'])}⟩"
     L = ["import RepeVerif.Model.Fleet",
-         "/-! GENERATED by /verif/extract/fleet.py from /repo (src/fleet.rs, src/async_fleet.rs). -/",
+         "/-! GENERATED by /verif/extract/fleet.py from /repo (src/fleet.rs, src/async_fleet.rs, src/client.rs, src/async_client.rs). -/",
          "namespace Repe.Gen.Fleet",
          "open Repe.Fleet",
          f"def retryableKinds : List IoKind := {kinds(f['retryableKinds'])}",
@@ -134,8 +160,10 @@ def render(f):
          f"def asyncFilter : FilterForm := .{f['asyncFilter']}",
          f"def fanOutOverTargets : Bool := {b(f['fanOutOverTargets'])}",
          f"def asyncFanOutOverTargets : Bool := {b(f['asyncFanOutOverTargets'])}",
-         "def policy : Policy := ⟨retryableKinds, serverRetry, otherRetry⟩",
-         "def asyncPolicy : Policy := ⟨asyncRetryableKinds, asyncServerRetry, asyncOtherRetry⟩",
+         f"def deadKinds : List IoKind := {kinds(f['deadKinds'])}",
+         f"def asyncDeadKinds : List IoKind := {kinds(f['asyncDeadKinds'])}",
+         "def policy : Policy := ⟨retryableKinds, serverRetry, otherRetry, deadKinds.headD .brokenPipe⟩",
+         "def asyncPolicy : Policy := ⟨asyncRetryableKinds, asyncServerRetry, asyncOtherRetry, asyncDeadKinds.headD .brokenPipe⟩",
          "end Repe.Gen.Fleet"]
     return "\n".join(L) + "\n"
 
